@@ -17,7 +17,7 @@ RULE = ("two exhaustive families: (structure) ALL JSON values with <= N nodes ov
         "with the same JSON type at every leaf - for the buffered classes the leaves family also inside obj.buffered (read back "
         "while buffered and by a fresh object after the exit); (overwrite) for every ordered pair of values that compare == but are "
         "different JSON values (0/False/0.0/-0.0, 1/True/1.0, 2**53 int/float; bare and inside a dict, a list, a list in "
-        "a dict) the first is stored and then OVERWRITTEN by the second through every entry point that replaces a "
+        "a dict), and for pairs of different values of one type, the first is stored and then OVERWRITTEN by the second through every entry point that replaces a "
         "position - the fresh object must read the second; non-trivial = distinct (value, entry point) pairs")
 BOUNDS = {"quick": "structure N=4 (JSONDict/JSONList N=5), leaves through 4 entry points per class",
           "thorough": "structure N=5 (JSONDict/JSONList N=6), leaves through every entry point"}
@@ -175,8 +175,16 @@ OVERWRITE_EPS = {"dict": ("setitem", "update-mapping", "update-pairs", "update-k
                  "list": ("setitem", "setslice", "reset", "nested-dict-setitem")}
 
 
+# ... and pairs of DIFFERENT values of one type (the merge must not mistake them for unchanged either)
+SAME_TYPE_PAIRS = ((1.5, 2.5), (-1.5, 1.5), (1e308, 5e-324), (1, 2), (-1, 1), ("a", "b"), ("", "a"), (True, False), (2 ** 70, 2 ** 70 + 1))
+
+
 def overwrite_pairs():
     out = []
+    for a, b in SAME_TYPE_PAIRS:
+        for w in WRAPS:
+            out.append((w(a), w(b)))
+            out.append((w(b), w(a)))
     for ts in TWIN_SETS:
         for a in ts:
             for b in ts:
